@@ -33,7 +33,7 @@ E = lambda t: 1000 + t  # noqa: E731
 
 # properties whose history-level statements (Props/Histories<pid>.v) are finished
 # and wired in as obligations (files still being written are not)
-HISTORIES = {"C01", "C02", "C03", "C05", "C20"}
+HISTORIES = {"C01", "C02", "C03", "C05", "C12", "C13", "C18", "C20"}
 
 SPECS = {
     "C01": dict(profiles=["pubsub"], owned={EVENT, PUBLISHED, SUBSCRIBED, UNSUBSCRIBED, E(16), E(32), E(34)},
